@@ -153,7 +153,7 @@ CHECKS["C14"] = dict(
    ref="6 (C14)")
 CHECKS["C15"] = dict(
    text="spec/Tolerancing.tla models the sensitivity and Monte-Carlo loops (Reset, Apply, Compensate, Evaluate with failure injection, Record, EndRun); "
-        "MC_Tolerancing checks RowsTrue, NominalReproduced, Reproducible, EndStateNominal and ResetRestores exhaustively over sampler kinds, random "
+        "MC_Tolerancing checks RowsTrue, RowsCompensated, NominalReproduced, Reproducible, EndStateNominal and ResetRestores exhaustively over sampler kinds, random "
         "streams and failure sets, with the variable handles (initv, HandlesNominal) and the user's what-if steps after a run (UserApply / "
         "UserCompensate / UserReset), and with negative configs (no final reset; no per-trial reset; a compensation that re-bases its handle - invisible "
         "to the run alone, exposed by a what-if history). Trace_Tolerancing validates real SensitivityAnalysis and "
